@@ -710,8 +710,8 @@ func witnessProp() engine.AnyProp {
 }
 
 // slowReaderProp: a consumer that is slow is not a consumer that is gone. One case per run (shard
-// 0 only): a file is read row by row with a pause after the first row - 6 s in the quick tier,
-// 21 s in the thorough one; the pause is waiting, not a verdict - and every row written must
+// 0 only): a file is read row by row with a pause after the first row - 16 s in the quick tier,
+// 61 s in the thorough one; the pause is waiting, not a verdict - and every row written must
 // still arrive.
 var slowOnce sync.Once
 
@@ -743,9 +743,9 @@ func slowReaderProp() engine.AnyProp {
 					o.Failf("harness: %v", err)
 					return
 				}
-				pause := 6 * time.Second
+				pause := 16 * time.Second
 				if engine.Thorough() {
-					pause = 21 * time.Second
+					pause = 61 * time.Second
 				}
 				var back []*RowD
 				var openErr error
